@@ -1,6 +1,7 @@
 from cfg.common import FLOAT_ASSUMPTION, NOTE_COMMON
 
 PROP = {
+    'anchors': [('utils/mod.rs', 'interp1d'), ('utils/mod.rs', 'interp3d'), ('utils/mod.rs', 'find_interp_indices'), ('utils/mod.rs', 'compute_interp_diff'), ('consist/locomotive/powertrain/fuel_converter.rs', 'solve_energy_consumption'), ('consist/locomotive/powertrain/generator.rs', 'set_pwr_in_req'), ('consist/locomotive/powertrain/electric_drivetrain.rs', 'set_pwr_in_req'), ('consist/locomotive/powertrain/reversible_energy_storage.rs', 'solve_energy_consumption'), ('consist/locomotive/locomotive_model.rs', 'set_pwr_aux'), ('consist/locomotive/conventional_loco.rs', 'solve_energy_consumption')],
     'blocks': ['pt'],
     'proof_modules': ['C08'],
     'namespaces': ['Altrios.Proofs.C08', 'Altrios.Proofs.InterpL'],
